@@ -756,19 +756,19 @@ def spec_bound(case):
 
 
 def spec_when(case):
-    ws, cur, src_alive, closing_alive = [_win(T0, "init")], 0, True, True
+    """when the closing selector raises, the open window and the outer sequence both end with that error."""
+    ws, cur = [_win(T0, "init")], 0
     if case.get("raise_at") == 0:
-        closing_alive = False          # outer fails; the window stays open until the source ends
+        ws[-1]["end"] = (T0, ["E", "cm0"], "init")
+        return ws
     for t, k, n in _static_events(case):
         if k == 0:
-            if not src_alive:
-                continue
             if n[0] == "N":
                 ws[-1]["items"].append((t, n[1]))
             else:
                 ws[-1]["end"] = (t, n, _sc(case))
                 break
-        elif closing_alive and k == cur + 1:
+        elif k == cur + 1:
             if n[0] == "E":
                 ws[-1]["end"] = (t, n, "hot")
                 break
@@ -776,7 +776,8 @@ def spec_when(case):
             ws.append(_win(t, "hot"))
             cur += 1
             if case.get("raise_at") == cur:
-                closing_alive = False
+                ws[-1]["end"] = (t, ["E", f"cm{cur}"], "hot")
+                break
     return ws
 
 
@@ -1016,6 +1017,8 @@ THEOREMS = [
     "C18.windows_end_with_source_count",
     "C18.windows_end_with_source_boundaries",
     "C18.windows_end_with_source_when",
+    "C18.windows_end_when_mapper_raises",
+    "C18.when_mapper_raise_asis",
     "C18.windows_end_with_source_time",
     "C18.windows_end_with_source_time_or_count",
     "C18.toggle_windows_end_partial",
@@ -1057,7 +1060,8 @@ LEVEL_TEXT = ("Lean theorems about hand-written models of window_with_count_, wi
               "(for every tagged event trace incl. dispose anywhere and, for the timed operators, timer firings anywhere: the elements "
               "pushed into window id are exactly the source elements arriving while id is in the operator's open set, in arrival order); "
               "windows_end_with_source_* (in any state, a source terminal ends every open window with that terminal and stops the outer "
-              "observer); buffer_eq_window_* / buffer_is_items (each buffer = contents of its window); timer_chain (the create_timer sequence opens at k*shift and closes at k*shift+span, due times never decrease). "
+              "observer; windows_end_when_mapper_raises: a raising closing mapper of window_when fails the open window and the outer); "
+              "buffer_eq_window_* / buffer_is_items (each buffer = contents of its window); timer_chain (the create_timer sequence opens at k*shift and closes at k*shift+span, due times never decrease). "
               "Models are tied to /repo by differential execution of window and buffer operators on generated hot timelines, plus oracles "
               "written from the property text (routing on the interleaved log, end-with-source, per-operator open/close tables, "
               "buffer = contents of its window).")
